@@ -37,7 +37,7 @@ Proof.
       * destruct (S1 _ _ Ho) as (ob1 & Ho1 & E1 & _).
         assert (Hir : false = is_ref (o_rec ob1)) by (unfold is_ref in *; rewrite E1; symmetry; exact Eref).
         assert (Hcvf : false = true -> cv s1) by discriminate.
-        destruct (start_finish_obj _ _ _ _ _ _ _ _ _ Hcvf Ho1 Hir HS) as (A & B & C).
+        destruct (start_finish_obj _ _ _ _ _ _ _ _ _ _ Hcvf Ho1 Hir HS) as (A & B & C).
         split; [exact A|]. split; [eapply stable_trans; eassumption | exact C].
       * injection HS as <- <- _. split; [discriminate|]. split; [exact S1 | discriminate].
       * exfalso. eapply N1; [congruence | reflexivity].
@@ -45,7 +45,7 @@ Proof.
       * destruct (cache_delete s k) as [s1 b] eqn:EC. apply stable_cache_delete in EC.
         injection HS as <- <- _. split; [discriminate|]. split; [exact EC | discriminate].
       * assert (Hcvf : false = true -> cv s) by discriminate.
-        exact (start_finish_obj _ _ _ _ _ _ _ _ _ Hcvf Ho (eq_sym Eref) HS).
+        exact (start_finish_obj _ _ _ _ _ _ _ _ _ _ Hcvf Ho (eq_sym Eref) HS).
 Qed.
 
 Theorem start_nopanic s q s' res cks :
@@ -88,13 +88,13 @@ Proof.
   unfold has_data. rewrite A, B. exact Hd.
 Qed.
 
-Lemma follow_data : forall fuel s o ob s' o',
-  J Kd s -> hget s o = Some ob -> has_data (o_rec ob) -> follow fuel s o = (s', Ok o') ->
+Lemma follow_data : forall fuel s o ob lk s' o' lk',
+  J Kd s -> hget s o = Some ob -> has_data (o_rec ob) -> follow fuel s o lk = (s', Ok (o', lk')) ->
   exists ob', hget s' o' = Some ob' /\ has_data (o_rec ob').
 Proof.
-  induction fuel as [|f IH]; intros s o ob s' o' HJ Ho Hd HF; simpl in HF; rewrite Ho in HF.
-  - destruct (r_ref (o_rec ob)); [discriminate|]. injection HF as <- <-. exists ob. auto.
-  - destruct (r_ref (o_rec ob)) as [t|]; [|injection HF as <- <-; exists ob; auto].
+  induction fuel as [|f IH]; intros s o ob lk s' o' lk' HJ Ho Hd HF; simpl in HF; rewrite Ho in HF.
+  - destruct (r_ref (o_rec ob)); [discriminate|]. injection HF as <- <- <-. exists ob. auto.
+  - destruct (r_ref (o_rec ob)) as [t|]; [|injection HF as <- <- <-; exists ob; auto].
     destruct (cache_get s t) as [s1 g] eqn:EG.
     destruct (cache_get_safe _ Kd_codec _ _ _ _ HJ EG) as (_ & _ & _ & HJ1 & _ & _ & _ & _ & Hr).
     destruct g as [[o1|]|]; try discriminate.
@@ -121,9 +121,9 @@ Proof.
   - destruct (sat_add (c_idexpiry c) (c_grace c) <=? since (r_created (o_rec ob)) (now s))%Z.
     + destruct (cache_delete s k) as [s1 b]. discriminate.
     + unfold start_finish in HS.
-      destruct (follow (S (N.to_nat (supply s))) s o) as [s2 fr] eqn:EF.
-      destruct fr as [o1|e|e]; try discriminate. injection HS as <- <- _.
-      destruct (follow_data _ _ _ _ _ _ HJ Ho Hd EF) as (ob1 & Ho1 & Hd1).
+      destruct (follow (S (N.to_nat (supply s))) s o k) as [s2 fr] eqn:EF.
+      destruct fr as [[o1 lk1]|e|e]; try discriminate. injection HS as <- <- _.
+      destruct (follow_data _ _ _ _ _ _ _ _ HJ Ho Hd EF) as (ob1 & Ho1 & Hd1).
       eapply has_data_stable; [apply bookkeep_stable | exact Ho1 | exact Hd1].
   - destruct (c_idexpiry c <=? since (r_created (o_rec ob)) (now s))%Z.
     + destruct (regenerate s o) as [[s1 r1] rck]. destruct r1 as [[]|e|e]; try discriminate.
